@@ -168,7 +168,7 @@ func TestVerifC07Verify(t *testing.T) {
 		}
 		return
 	}
-	r := vh.NewRng(vh.Seed() + 71)
+	r := vh.NewRng(vh.Seed() + 71).Fork() // Fork: the raw splitmix streams of neighbouring seeds are shifts of each other
 	for _, c := range vdmarc.Corpus() {
 		c07Verify(out, c, seedOK)
 	}
@@ -176,16 +176,18 @@ func TestVerifC07Verify(t *testing.T) {
 	for i := 0; i < n; i++ {
 		c07Verify(out, vdmarc.Random(r), seedOK)
 	}
+	// strided sweep of the property's stated product (offset by the seed)
+	target := 30000
 	if vh.Thorough() {
-		target := 250000
-		if v, err := strconv.Atoi(os.Getenv("VERIF_C07_ENUM")); err == nil && v > 0 {
-			target = v
-		}
-		stride := vdmarc.EnumStride(target)
-		k := vdmarc.Enumerate(stride, int(vh.Seed()), func(c *vdmarc.Case) { c07Verify(out, c, seedOK) })
-		out.StatN("enumerated", k)
-		out.StatN("enumeration.stride", stride)
+		target = 600000
 	}
+	if v, err := strconv.Atoi(os.Getenv("VERIF_C07_ENUM")); err == nil && v > 0 {
+		target = v
+	}
+	stride := vdmarc.EnumStride(target)
+	k := vdmarc.Enumerate(stride, int(vh.Seed()), func(c *vdmarc.Case) { c07Verify(out, c, seedOK) })
+	out.StatN("enumerated", k)
+	out.StatN("enumeration.stride", stride)
 }
 
 // op: C07 aligned <from> <auth> <r|s> | tables — the real isAligned over the whole fixed set
@@ -280,7 +282,7 @@ func TestVerifC07Extract(t *testing.T) {
 		}
 		return
 	}
-	r := vh.NewRng(vh.Seed() + 72)
+	r := vh.NewRng(vh.Seed() + 72).Fork()
 	n := vh.N(20000) / 10
 	for i := 0; i < n; i++ {
 		c := vdmarc.Random(r)
